@@ -93,16 +93,20 @@ def main(argv):
     replay_res, replay_out, replay_note = ({}, "", None)
     if tier == "thorough":
         replay_res, replay_out, replay_note = run_replays(pid, known)
-    try:
-        with cf.ThreadPoolExecutor(max_workers=min(8, len(jobs))) as ex:
-            futs = [ex.submit(run_group, *j) for j in jobs]
-            for f in futs:
+    # a group that cannot be extracted is undecided; the other groups are still run, and a violation found in them stands
+    with cf.ThreadPoolExecutor(max_workers=min(8, len(jobs))) as ex:
+        futs = [ex.submit(run_group, *j) for j in jobs]
+        for f in futs:
+            try:
                 results.append(f.result())
-    except Undecided as e:
-        undecided.append(str(e))
-    except (OSError, ValueError, KeyError, IndexError, AssertionError) as e:
-        undecided.append(f"extraction failed: {type(e).__name__}: {e}")
-    if undecided:
+            except Undecided as e:
+                if str(e) not in undecided:
+                    undecided.append(str(e))
+            except (OSError, ValueError, KeyError, IndexError, AssertionError) as e:
+                m = f"extraction failed: {type(e).__name__}: {e}"
+                if m not in undecided:
+                    undecided.append(m)
+    if undecided and not results:
         lines = replay_violation_lines(pid, replay_res, replay_out)
         for ln in lines:
             print(ln)
